@@ -498,6 +498,20 @@ func runTarget(p *Loaded, t Target, selRet int) (res *TargetResult) {
 		x.oblige("F", "sends-something", BoolC(x.sends > 0), token.NoPos)
 		x.curFunc = x.curFunc[:len(x.curFunc)-1]
 	}
+	// vacuity guard for loops: a loop cut by invariants whose back edge no path reaches proves nothing about its body
+	if res.Err == "" && selRet == 0 {
+		var ks []string
+		for k := range x.loopSeen {
+			if !x.loopBack[k] {
+				ks = append(ks, k)
+			}
+		}
+		sort.Strings(ks)
+		for _, k := range ks {
+			fn, key, _ := strings.Cut(k, " loop ")
+			x.obls = append(x.obls, &Obligation{Name: fn + "#V:body:" + key, Class: "V", Func: fn, Label: "body:" + key, PC: True(), Goal: False(), NHyp: 0, Vacuous: true})
+		}
+	}
 	// vacuity guard: the end of the harness must be reachable under all assumptions made on the
 	// way (requires, callee postconditions, invariants).  "false" must NOT be provable there.
 	if selRet == 0 && x.st != nil && res.Err == "" {
